@@ -53,6 +53,9 @@ def judgeResp (st : RespSt) (fields : List String) : RespSt × String :=
         ({ active := true, status := status, hdr := h, enc := enc, sym := sym, body := body,
            cacheable := cacheable = "1", r0 := r0, k := k }, "ok case 0")
     | _, _, _, _, _, _, _ => (st, "BADLINE resp case")
+  | ["variant", _i, fmt, same, _n, _nref] =>
+    -- a variant pike compressed itself at store time is what the best-compression profile produces
+    (st, if same = "1" then s!"ok variant-{fmt} 1" else s!"ok variant-{fmt} 1 TRIP stored_variant_not_best_profile:{fmt}")
   | [path, _i, ae, "=>", code, ce, bodyOK, same, clOK, xs, hdr, calls, _len] =>
     if !st.active then (st, "BADLINE resp no case") else
     match unhex ae, code.toNat?, unhex ce, unhex xs, parseHeader hdr, calls.toNat? with
